@@ -7,7 +7,7 @@ import json, os, re, subprocess, sys, time
 SEEDED = '/verif/seeded'
 # property whose check is expected to catch the change (default: the property in the id)
 CHECK_OVERRIDE = {'C04-m1': 'C03'}
-NEEDS = {}
+MECH = json.load(open('/verif/tools/seeded_mech.json'))
 
 def sh(cmd, **kw):
     return subprocess.run(cmd, shell=True, capture_output=True, text=True, **kw)
@@ -43,7 +43,8 @@ def main():
             'id': sid,
             'breaks_property': prop,
             'origin': 'independent sub-agent given only the property text and a scratch worktree of /repo',
-            'what_it_needs_to_manifest': meta.get('what_it_needs_to_manifest') or extract_needs(readme),
+            'mechanism': MECH.get(sid, [meta.get('mechanism', ''), ''])[0],
+            'what_it_needs_to_manifest': MECH.get(sid, ['', ''])[1] or meta.get('what_it_needs_to_manifest') or extract_needs(readme),
             'verified_by_me': summ,
             'verification_commands': 'tools/verify_mutant.sh (scratch worktree of /repo HEAD: demo x3 without the change, existing suite with the change, demo x3 with the change)',
             'check_run': f'git -C /repo apply patch.diff; ./check {chk} quick; git -C /repo checkout -- .',
